@@ -78,14 +78,60 @@ pub enum FRes {
 pub fn build_frag(c: &FCfg) -> Result<Result<FragmentedMuxer, String>, String> {
     guarded(|| {
         if c.via_builder {
-            let mut b = MuxerBuilder::new(Vec::<u8>::new()).video(vcodec(c.codec), c.width, c.height, 30.0);
-            match c.codec % 4 {
-                0 => b = b.with_sps(c.sps.clone()).with_pps(c.pps.clone()),
-                1 => b = b.with_vps(c.vps.clone()).with_sps(c.sps.clone()).with_pps(c.pps.clone()),
-                2 => b = b.with_av1_sequence_header(c.av1.clone()),
-                _ => b = b.with_vp9_config(c.vp9.to_cfg()),
-            }
             let codec = c.codec % 4;
+            // order of the builder calls (stray bits 4..5): 0 video() then the parameter sets; 1 parameter sets first; 2 a decoy
+            // video() for another codec, the parameter sets, then the real video(); 3 old parameter sets, decoy video(), the
+            // real parameter sets, the real video().  Every setter stores what it is given; the last value of each must win.
+            let order = (c.stray >> 4) % 4;
+            let sets = |mut b: MuxerBuilder<Vec<u8>>, old: bool| -> MuxerBuilder<Vec<u8>> {
+                let tw = |v: &Vec<u8>| -> Vec<u8> {
+                    if old {
+                        let mut x = v.clone();
+                        x.push(0x99);
+                        x.reverse();
+                        x
+                    } else {
+                        v.clone()
+                    }
+                };
+                match codec {
+                    0 => b = b.with_sps(tw(&c.sps)).with_pps(tw(&c.pps)),
+                    1 => b = b.with_vps(tw(&c.vps)).with_sps(tw(&c.sps)).with_pps(tw(&c.pps)),
+                    2 => b = b.with_av1_sequence_header(if old { obu_other() } else { c.av1.clone() }),
+                    _ => {
+                        let mut v = c.vp9.clone();
+                        if old {
+                            v.profile = (v.profile + 1) % 4;
+                            v.level = v.level.wrapping_add(7);
+                        }
+                        b = b.with_vp9_config(v.to_cfg())
+                    }
+                }
+                b
+            };
+            let mut b = MuxerBuilder::new(Vec::<u8>::new());
+            let decoy = vcodec((c.codec + 1 + (c.stray & 1)) % 4);
+            match order {
+                0 => {
+                    b = b.video(vcodec(c.codec), c.width, c.height, 30.0);
+                    b = sets(b, false);
+                }
+                1 => {
+                    b = sets(b, false);
+                    b = b.video(vcodec(c.codec), c.width, c.height, 30.0);
+                }
+                2 => {
+                    b = b.video(decoy, c.width + 2, c.height + 2, 25.0);
+                    b = sets(b, false);
+                    b = b.video(vcodec(c.codec), c.width, c.height, 30.0);
+                }
+                _ => {
+                    b = sets(b, true);
+                    b = b.video(decoy, c.width + 2, c.height + 2, 25.0);
+                    b = sets(b, false);
+                    b = b.video(vcodec(c.codec), c.width, c.height, 30.0);
+                }
+            }
             if c.stray & 1 != 0 && codec != 1 {
                 b = b.with_vps(vec![0x40, 0x01, 0x0c, 0x01]);
             }
@@ -114,6 +160,13 @@ pub fn build_frag(c: &FCfg) -> Result<Result<FragmentedMuxer, String>, String> {
             Ok(FragmentedMuxer::new(cfg))
         }
     })
+}
+
+/// another (valid) AV1 sequence header OBU, used as the "old" value in the builder-order variants
+fn obu_other() -> Vec<u8> {
+    let mut s = crate::gen::Av1Seq::simple();
+    s.w_m1 ^= 3;
+    crate::gen::obu(1, false, 0, true, 0, &s.payload())
 }
 
 pub struct FRun {
